@@ -29,6 +29,7 @@ theorem Conn_nextIdleTimeoutTime_model_is_source (s : St) (pto : Int) :
     s.nextIdle pto = Conn_nextIdleTimeoutTime s.firstAESent s.idleTimeout s.lastPacketReceivedTime pto := by
   unfold St.nextIdle St.idlePeriod Conn_nextIdleTimeoutTime
   rw [← Conn_idleTimeoutStartTime_model_is_source]
+  all_goals omega
 
 theorem Conn_nextKeepAliveTime_model_is_source (s : St) (pto : Int) (h : 0 ≤ pto) :
     s.nextKeepAlive pto = Conn_nextKeepAliveTime s.keepAlivePeriod s.keepAliveInterval s.keepAlivePingSent s.lastPacketReceivedTime pto := by
@@ -64,12 +65,13 @@ theorem Conn_nextIdleTimeoutTime_timer_model_is_source (i : Input) (h : i.firstA
     nextIdle i = Conn_nextIdleTimeoutTime (i.firstAE.getD 0) i.idleTimeout i.lastRecv i.pto := by
   unfold nextIdle Conn_nextIdleTimeoutTime
   rw [← Conn_idleTimeoutStartTime_timer_model_is_source i h]
+  all_goals omega
 
 theorem Conn_nextKeepAliveTime_timer_model_is_source (i : Input) (h : 0 ≤ i.pto) :
     (nextKeepAlive i).getD 0 = Conn_nextKeepAliveTime i.keepAlivePeriod i.keepAliveInterval i.keepAlivePingSent i.lastRecv i.pto := by
   unfold nextKeepAlive Conn_nextKeepAliveTime
   tdiv_norm
-  all_goals (cases i.keepAlivePingSent <;> by_cases hk : i.keepAlivePeriod = 0 <;> simp [hk])
+  all_goals (cases i.keepAlivePingSent <;> by_cases hk : i.keepAlivePeriod = 0 <;> simp [hk] <;> omega)
 
 end timer
 
